@@ -1,7 +1,193 @@
-(** C04 -- property theorems only (stub while the proofs are being written). *)
-From Coq Require Import List Bool ZArith QArith.
-From P Require Import FromGeo Arith.
+(** C04 -- property theorems only.  Model: FromGeo.v (exact rationals; a quantity the code
+    computes with a square root is carried as a [surd] coef * sqrt(rad)).  [wf], [layers_wf],
+    [edges_wf]: NamesAgree.v, Volume.v, ConnGeom.v.  Satisfiability of every hypothesis: the
+    example_* theorems at the end (Witness.v). *)
+From Coq Require Import List Bool ZArith QArith Qminmax Permutation.
+From PTBase Require Import Exn PyStr.
+From P Require Import FromGeo Arith Lists NamesAgree Volume ConnGeom Witness.
+Import ListNotations.
 Open Scope Q_scope.
-Theorem nq_preserves_value : forall q, nq q == q.
-Proof. exact nq_eq. Qed.
-Print Assumptions nq_preserves_value.
+
+(** ** the model's arithmetic is Q's *)
+Theorem model_arithmetic_exact : forall a b,
+  qadd a b == a + b /\ qsub a b == a - b /\ qmul a b == a * b /\ qdiv a b == a / b /\
+  (qleb a b = true <-> a <= b) /\ qmin a b == Qmin a b.
+Proof. exact model_arith_lemma. Qed.
+Print Assumptions model_arithmetic_exact.
+
+(** ** blocks and connections are the announced ones, in order and orientation *)
+Theorem fromgeo_blocks_eq_name_list : forall g bm names,
+  wf g -> block_name_list g = Ok names -> NoDup (map (apply_map bm) names) ->
+  exists bl, fromgeo_blocks g bm = Ok bl /\ map bname bl = map (apply_map bm) names.
+Proof. exact fromgeo_blocks_names. Qed.
+Print Assumptions fromgeo_blocks_eq_name_list.
+
+Theorem fromgeo_blocks_eq_name_list_no_map : forall g names,
+  wf g -> block_name_list g = Ok names -> NoDup names ->
+  exists bl, fromgeo_blocks g [] = Ok bl /\ map bname bl = names.
+Proof. exact fromgeo_blocks_names_nomap. Qed.
+Print Assumptions fromgeo_blocks_eq_name_list_no_map.
+
+(** the rock blocks are, up to the announced order, the (layer, column) pairs with the column
+    surface above the layer bottom, each carrying the volume and centre of its own pair *)
+Theorem fromgeo_blocks_are_the_pairs_below_surface : forall g bm names,
+  wf g -> block_name_list g = Ok names -> NoDup (map (apply_map bm) names) ->
+  exists ps, Permutation ps (ug_pairs g) /\ names = (atm_names g ++ map (bnp g) ps)%list /\
+             fromgeo_blocks g bm = Ok (atm_bl g bm ++ map (mk_ug g bm) ps)%list.
+Proof. exact blocks_shape. Qed.
+Print Assumptions fromgeo_blocks_are_the_pairs_below_surface.
+
+Theorem pairs_below_surface : forall g l c,
+  In (l, c) (ug_pairs g) <-> In l (tl (layers g)) /\ In c (columns g) /\ lbot l < csurf c.
+Proof. exact in_ug_pairs. Qed.
+Print Assumptions pairs_below_surface.
+
+Theorem fromgeo_conns_eq_name_list : forall g bm names,
+  wf g -> block_name_list g = Ok names -> NoDup (map (apply_map bm) names) ->
+  exists cnl, block_connection_name_list g = Ok cnl /\
+    (NoDup (map (map_pair bm) cnl) ->
+     exists cs, fromgeo_conns g bm = Ok cs /\ map ckey cs = map (map_pair bm) cnl).
+Proof. exact fromgeo_conns_names. Qed.
+Print Assumptions fromgeo_conns_eq_name_list.
+
+Theorem fromgeo_conns_eq_name_list_no_map : forall g names,
+  wf g -> block_name_list g = Ok names -> NoDup names ->
+  exists cnl, block_connection_name_list g = Ok cnl /\
+    (NoDup cnl -> exists cs, fromgeo_conns g [] = Ok cs /\ map ckey cs = cnl).
+Proof. exact fromgeo_conns_names_nomap. Qed.
+Print Assumptions fromgeo_conns_eq_name_list_no_map.
+
+(** ** volumes *)
+(** the code's case analysis of the block top is the specified one *)
+Theorem block_top_is_surface_or_layer_top : forall g,
+  wf g -> layers_wf g -> forall i l c, nth_error (layers g) (S i) = Some l -> lbot l < csurf c ->
+  exists s, block_surface g l c = Some s /\ s == block_top i l c.
+Proof. exact block_surface_spec. Qed.
+Print Assumptions block_top_is_surface_or_layer_top.
+
+Theorem block_volume_formula : forall g,
+  wf g -> layers_wf g -> forall bm names bl, block_name_list g = Ok names -> NoDup (map (apply_map bm) names) ->
+  fromgeo_blocks g bm = Ok bl ->
+  Forall (fun b => batm b = false ->
+            exists i l c v, nth_error (layers g) (S i) = Some l /\ In c (columns g) /\ lbot l < csurf c /\
+                            bname b = block_name (convention g) (lname l) (cname c) bm /\
+                            bvol b = Some v /\ v == carea c * block_height i l c) bl.
+Proof. exact block_volumes_lemma. Qed.
+Print Assumptions block_volume_formula.
+
+Theorem column_volume_telescopes : forall g,
+  wf g -> layers_wf g -> forall c, tl (layers g) <> [] -> bottom_of g < csurf c ->
+  col_volume g c == carea c * (csurf c - bottom_of g).
+Proof. exact column_volume_telescopes_lemma. Qed.
+Print Assumptions column_volume_telescopes.
+
+Theorem total_rock_volume : forall g,
+  wf g -> layers_wf g -> forall bm names bl, tl (layers g) <> [] -> (forall c, In c (columns g) -> bottom_of g < csurf c) ->
+  block_name_list g = Ok names -> NoDup (map (apply_map bm) names) ->
+  fromgeo_blocks g bm = Ok bl ->
+  rock_volume bl == qsum (map (fun c => carea c * (csurf c - bottom_of g)) (columns g)).
+Proof. exact total_volume_lemma. Qed.
+Print Assumptions total_rock_volume.
+
+(** ** connections *)
+Theorem connections_are_vertical_or_horizontal : forall g bm names cs,
+  wf g -> layers_wf g -> edges_wf g ->
+  block_name_list g = Ok names -> NoDup (map (apply_map bm) names) ->
+  fromgeo_conns g bm = Ok cs ->
+  Forall (fun k => vertical_spec g bm k \/ horizontal_spec g bm k) cs.
+Proof. exact conns_geometry_lemma. Qed.
+Print Assumptions connections_are_vertical_or_horizontal.
+
+Theorem vertical_conn_area_dircos : forall g bm i l c k,
+  vertical_spec_at g bm i l c k ->
+  karea k = rat (carea c) /\ kdir k = 3%nat /\ (untilted g -> rad (kcos k) = 1 /\ coef (kcos k) == -1).
+Proof. exact vertical_area_dircos_lemma. Qed.
+Print Assumptions vertical_conn_area_dircos.
+
+Theorem vertical_distances_sum : forall g bm i l c k,
+  vertical_spec_at g bm i l c k -> is_top i l c = false ->
+  exists al d1 d2, nth_error (layers g) i = Some al /\ nth_error (layers g) (S i) = Some l /\
+    k1 k = block_name (convention g) (lname l) (cname c) bm /\
+    k2 k = block_name (convention g) (lname al) (cname c) bm /\
+    kd1 k = rat d1 /\ kd2 k = rat d2 /\ d1 + d2 == zcentre al c - zcentre l c.
+Proof. exact vertical_interior_lemma. Qed.
+Print Assumptions vertical_distances_sum.
+
+Theorem vertical_atmosphere_distances : forall g bm i l c k,
+  vertical_spec_at g bm i l c k -> is_top i l c = true ->
+  exists l0 d1, nth_error (layers g) 0 = Some l0 /\
+    k1 k = block_name (convention g) (lname l) (cname c) bm /\ k2 k = atm_block_name g bm l0 c /\
+    kd1 k = rat d1 /\ d1 == csurf c - zcentre l c /\ kd2 k = rat (atm_conn g).
+Proof. exact vertical_atmosphere_lemma. Qed.
+Print Assumptions vertical_atmosphere_distances.
+
+Theorem horiz_conn_exact : forall g bm i l h k,
+  horizontal_spec_at g bm i l h k ->
+  rad (karea k) == edge2 h /\
+  coef (karea k) == Qmin (block_height i l (hcolA h)) (block_height i l (hcolB h)) /\
+  coef (kd1 k) == 1 /\ rad (kd1 k) * edge2 h == cross h (ccx (hcolA h)) (ccy (hcolA h)) ^ 2 /\
+  coef (kd2 k) == 1 /\ rad (kd2 k) * edge2 h == cross h (ccx (hcolB h)) (ccy (hcolB h)) ^ 2.
+Proof. exact horizontal_area_distance_lemma. Qed.
+Print Assumptions horiz_conn_exact.
+
+Theorem perpendicular_distance_closed_form : forall h cx cy d2,
+  perp_sq h cx cy d2 -> d2 * edge2 h == cross h cx cy ^ 2.
+Proof. exact perp_sq_closed. Qed.
+Print Assumptions perpendicular_distance_closed_form.
+
+Theorem horiz_dircos_sign : forall g bm i l h k,
+  horizontal_spec_at g bm i l h k -> untilted g ->
+  coef (kcos k) == zcentre l (hcolA h) - zcentre l (hcolB h) /\
+  (coef (kcos k) == 0 <-> zcentre l (hcolA h) == zcentre l (hcolB h)) /\
+  (~ (ccx (hcolA h) == ccx (hcolB h) /\ ccy (hcolA h) == ccy (hcolB h)) -> 0 < rad (kcos k)).
+Proof. exact horizontal_dircos_lemma. Qed.
+Print Assumptions horiz_dircos_sign.
+
+Theorem horiz_dircos_level_and_truncated : forall g bm i l h k,
+  horizontal_spec_at g bm i l h k -> untilted g ->
+  (ltop l < csurf (hcolA h) -> ltop l < csurf (hcolB h) -> coef (kcos k) == 0) /\
+  (lcen l == (1 # 2) * (lbot l + ltop l) ->
+   csurf (hcolA h) < ltop l -> ltop l <= csurf (hcolB h) -> ~ coef (kcos k) == 0) /\
+  (lcen l == (1 # 2) * (lbot l + ltop l) ->
+   csurf (hcolB h) < ltop l -> ltop l <= csurf (hcolA h) -> ~ coef (kcos k) == 0) /\
+  (csurf (hcolA h) <= ltop l -> csurf (hcolB h) <= ltop l ->
+   (coef (kcos k) == 0 <-> csurf (hcolA h) == csurf (hcolB h))).
+Proof. exact horizontal_dircos_cases_lemma. Qed.
+Print Assumptions horiz_dircos_level_and_truncated.
+
+(** ** the hypotheses are satisfiable: a concrete geometry *)
+Theorem example_geometry_meets_hypotheses : forall atm, (atm <= 2)%nat ->
+  wf (g_ex atm) /\ layers_wf (g_ex atm) /\ edges_wf (g_ex atm) /\ untilted (g_ex atm) /\
+  tl (layers (g_ex atm)) <> [] /\ (forall c, In c (columns (g_ex atm)) -> bottom_of (g_ex atm) < csurf c).
+Proof. exact ex_hyps. Qed.
+Print Assumptions example_geometry_meets_hypotheses.
+
+Theorem example_names_nodup :
+  block_name_list (g_ex 0) = Ok names_ex0 /\ NoDup (map (apply_map bm_ex) names_ex0) /\
+  map (apply_map bm_ex) names_ex0 <> names_ex0 /\
+  block_connection_name_list (g_ex 0) = Ok cnl_ex0 /\ NoDup (map (map_pair bm_ex) cnl_ex0).
+Proof. exact ex_names_all. Qed.
+Print Assumptions example_names_nodup.
+
+Theorem example_grid :
+  (exists bl, fromgeo_blocks (g_ex 0) bm_ex = Ok bl /\
+    map bname bl = map (apply_map bm_ex) names_ex0 /\
+    map bvol bl = [Some 1; Some 13; Some 6; Some 10; Some 10; Some 16; Some 10; Some 10; Some 20] /\
+    rock_volume bl == 1 * (3 - -30) + 1 * (-4 - -30) + 2 * (-12 - -30)) /\
+  (exists cs, fromgeo_conns (g_ex 0) bm_ex = Ok cs /\ map ckey cs = map (map_pair bm_ex) cnl_ex0 /\
+    map (fun k => Qeq_bool (coef (kcos k)) 0) cs =
+      [false; false; false;  false; false; false; true; false;  false; false; false; true; true]).
+Proof. exact (conj ex_blocks ex_conns). Qed.
+Print Assumptions example_grid.
+
+Theorem example_other_atmosphere_types :
+  (exists names cnl bl cs, block_name_list (g_ex 1) = Ok names /\ NoDup (map (apply_map bm_ex) names) /\
+    block_connection_name_list (g_ex 1) = Ok cnl /\ NoDup (map (map_pair bm_ex) cnl) /\
+    fromgeo_blocks (g_ex 1) bm_ex = Ok bl /\ fromgeo_conns (g_ex 1) bm_ex = Ok cs /\
+    length bl = 11%nat /\ length cs = 13%nat) /\
+  (exists names cnl bl cs, block_name_list (g_ex 2) = Ok names /\ NoDup (map (apply_map bm_ex) names) /\
+    block_connection_name_list (g_ex 2) = Ok cnl /\ NoDup (map (map_pair bm_ex) cnl) /\
+    fromgeo_blocks (g_ex 2) bm_ex = Ok bl /\ fromgeo_conns (g_ex 2) bm_ex = Ok cs /\
+    length bl = 8%nat /\ length cs = 10%nat).
+Proof. exact (conj ex_atm1 ex_atm2). Qed.
+Print Assumptions example_other_atmosphere_types.
